@@ -11,6 +11,14 @@ type verifChanMutex struct{ ch chan struct{} }
 func newVerifChanMutex() *verifChanMutex { return &verifChanMutex{ch: make(chan struct{}, 1)} }
 func (m *verifChanMutex) Lock()          { m.ch <- struct{}{} }
 func (m *verifChanMutex) Unlock()        { <-m.ch }
+func (m *verifChanMutex) TryLock() bool {
+	select {
+	case m.ch <- struct{}{}:
+		return true
+	default:
+		return false
+	}
+}
 
 // VerifResetInitMutex replaces the global initialisation mutex by a fresh one. Channels are
 // only durably blocking inside the synctest bubble that created them, so every bubble that
